@@ -273,3 +273,21 @@ def same_before_differs_after(p1, p2):
             if (e['before'] == f['before']) != (e['after'] == f['after']):
                 return True
     return False
+
+
+def type_of_size(rng, n, depth=1):
+    """random index type with exactly n elements"""
+    opts = ['atom']
+    if n >= 2:
+        opts.append('sum')
+    divs = [d for d in range(2, n) if n % d == 0]
+    if divs:
+        opts.append('prod')
+    k = rng.choice(opts)
+    if k == 'atom' or depth < 0:
+        return ('atom', n)
+    if k == 'sum':
+        a = rng.randint(1, n - 1)
+        return ('sum', (type_of_size(rng, a, depth - 1), type_of_size(rng, n - a, depth - 1)))
+    d = rng.choice(divs)
+    return ('prod', (type_of_size(rng, d, depth - 1), type_of_size(rng, n // d, depth - 1)))
